@@ -40,7 +40,8 @@ PLAN = {
                 mc=[("MC_Scan", {"quick": "MC_Scan.cfg", "thorough": "MC_Scan_thorough.cfg"})]),
     "C11": dict(export="Export_C11", parts=[(None, dict(flags=FF))],
                 mc=[("MC_Scan", {"quick": "MC_Scan.cfg", "thorough": "MC_Scan_thorough.cfg"})]),
-    "C12": dict(export="Export_C12", parts=[(None, dict(flags=[(False, False), (True, False)], fresh=True))],
+    "C12": dict(export="Export_C12", parts=[("m", dict(flags=[(False, False), (True, False)], fresh=True)),
+                                            ("n", dict(flags=FF, fresh=True, modes_only=True))],
                 mc=[("MC_Scan", {"quick": "MC_Scan.cfg", "thorough": "MC_Scan_thorough.cfg"})]),
 }
 
@@ -94,9 +95,18 @@ def run_part(report, prop, key, u, opts, tier):
         report.cov["sampled"] = True
     obs = matchpipe.drive({"rules": job_rules, "listings": job_listings, "pairs": pairs,
                            "fresh": bool(opts.get("fresh"))}, tag=f"{prop}{key or ''}")
-    cases = [matchpipe.case_of(o, rules[o["r"]][0] + 1, o["l"] + 1, rules[o["r"]][1], rules[o["r"]][2],
-                               rules[o["r"]][4]) for o in obs]
-    verdicts = matchpipe.validate(pats, lsts, cases, report, f"{prop}{key or ''}")
+    if opts.get("modes_only"):
+        # raw results only: no pattern semantics involved (nullable patterns, repeated addresses)
+        cases = [{"p": rules[o["r"]][0] + 1, "l": o["l"] + 1, "mfm": False, "ofm": False, "outcome": o["outcome"],
+                  "all": o.get("res", {}).get("LAT", []), "all_raw": o.get("res", {}).get("LAT", []),
+                  "first_raw": o.get("res", {}).get("LFT", []), "all_addr": o.get("res", {}).get("LAA", []),
+                  "first_addr": o.get("res", {}).get("LFA", []),
+                  "bools": [o.get("res", {}).get(k, False) for k in ("BAT", "BFT", "BAA", "BFA")]} for o in obs]
+        verdicts = matchpipe.validate(pats, lsts, cases, report, f"{prop}{key or ''}", module="Trace_Modes")
+    else:
+        cases = [matchpipe.case_of(o, rules[o["r"]][0] + 1, o["l"] + 1, rules[o["r"]][1], rules[o["r"]][2],
+                                   rules[o["r"]][4]) for o in obs]
+        verdicts = matchpipe.validate(pats, lsts, cases, report, f"{prop}{key or ''}")
     report.cov["evaluations"] += len(cases)
     report.cov["traces_validated_against_impl"] += len(cases)
     # non-trivial count
